@@ -1,6 +1,7 @@
 package harness
 
 import (
+	"math"
 	"encoding/base64"
 	"encoding/binary"
 	"fmt"
@@ -465,6 +466,9 @@ func famUtl(t *testing.T, r *Rec) {
 				}
 			case 7, 8:
 				st, del, ins := idx(), r.rng.IntN(6)-2, randCsv(r, r.rng.IntN(3), 9)
+				if r.rng.IntN(5) == 0 { // "everything to the end", spelled as the largest counts there are
+					del = []int{math.MaxInt, math.MaxInt, math.MaxInt - 1, 1 << 62}[r.rng.IntN(4)]
+				}
 				op = fmt.Sprintf("utl slice splice %d %d %s", st, del, ints(ins))
 				switch {
 				case st < 0 || st > len(ref):
@@ -528,6 +532,9 @@ func famUtl(t *testing.T, r *Rec) {
 				want = fmt.Sprint(len(ref))
 			default:
 				v, st, del, ins, rev := r.rng.IntN(9), idx(), r.rng.IntN(5)-1, randCsv(r, r.rng.IntN(3), 9), r.rng.IntN(2)
+				if r.rng.IntN(5) == 0 {
+					del = []int{math.MaxInt, math.MaxInt, math.MaxInt - 1}[r.rng.IntN(3)]
+				}
 				op = fmt.Sprintf("utl slice rsplice %d %d %d %s %d", v, st, del, ints(ins), rev)
 				hit := false
 				for _, x := range ref {
